@@ -115,8 +115,13 @@ Definition wc_U (w : wcase) (l : link) : option token := alookup l (wc_tokens w)
 
 Definition fuel : nat := 40.
 
-Definition run_world (w : wcase) : ares * list event :=
-  access (wc_U w) (wc_ctx w) fuel (std_desc (wc_can w)) (wc_inv w).
+Definition run_world_with (d : bstr -> desc) (w : wcase) : ares * list event :=
+  access (wc_U w) (wc_ctx w) fuel (d (wc_can w)) (wc_inv w).
+Definition run_world (w : wcase) : ares * list event := run_world_with std_desc w.
+
+(* NewCapability(can, with, nb, nil): the capability declared WITHOUT a derivation rule gets DefaultDerives
+   (resource containment only); its calls are not observable from outside, so the Derives log is not compared *)
+Definition dd_desc (can : bstr) : desc := mkDesc can std_with std_nb (fun c d => default_derives (wth c) (wth d)).
 
 Definition ev_verifies (ev : list event) : list N :=
   filter_map (fun e => match e with EvVerify _ k => Some k | _ => None end) ev.
@@ -130,8 +135,12 @@ Definition ev_derives (can : bstr) (ev : list event) : list (cap * cap * bool) :
                        | _ => None end) ev.
 
 (* 0 = agreement; otherwise the first observable that differs *)
-Definition check_world (w : wcase) : N :=
-  let '(r, ev) := run_world w in
+Definition check_world_with (dd : bool) (w : wcase) : N :=
+  let '(r, ev) := run_world_with (if dd then dd_desc else std_desc) w in
+  let derives_agree :=
+    dd || list_eqb (fun x y => cap_eqb (fst (fst x)) (fst (fst y)) && cap_eqb (snd (fst x)) (snd (fst y))
+                                       && Bool.eqb (snd x) (snd y))
+                   (ev_derives (wc_can w) ev) (ob_derives w) in
   match r with
   | AFuel => 9
   | AOk a =>
@@ -140,25 +149,24 @@ Definition check_world (w : wcase) : N :=
     else if negb (list_eqb N.eqb (ev_verifies ev) (ob_verifies w)) then 3
     else if negb (list_eqb (fun x y => path_eqb (fst x) (fst y) && Bool.eqb (snd x) (snd y))
                            (ev_checks ev) (ob_checks w)) then 4
-    else if negb (list_eqb (fun x y => cap_eqb (fst (fst x)) (fst (fst y)) && cap_eqb (snd (fst x)) (snd (fst y))
-                                       && Bool.eqb (snd x) (snd y))
-                           (ev_derives (wc_can w) ev) (ob_derives w)) then 5
+    else if negb derives_agree then 5
     else 0
   | AErr e =>
     if ob_auth w then 1
     else if negb (list_eqb N.eqb (ev_verifies ev) (ob_verifies w)) then 3
     else if negb (list_eqb (fun x y => path_eqb (fst x) (fst y) && Bool.eqb (snd x) (snd y))
                            (ev_checks ev) (ob_checks w)) then 4
-    else if negb (list_eqb (fun x y => cap_eqb (fst (fst x)) (fst (fst y)) && cap_eqb (snd (fst x)) (snd (fst y))
-                                       && Bool.eqb (snd x) (snd y))
-                           (ev_derives (wc_can w) ev) (ob_derives w)) then 5
+    else if negb derives_agree then 5
     else if negb (Bool.eqb (has_revoked e) (ob_err_revoked w)) then 6
     else 0
   end.
+Definition check_world (w : wcase) : N := check_world_with false w.
 
 (* (world id, code) for every disagreeing world *)
 Definition check_worlds (l : list wcase) : list (N * N) :=
   filter_map (fun w => let c := check_world w in if c =? 0 then None else Some (wc_id w, c)) l.
+Definition check_worlds_dd (l : list wcase) : list (N * N) :=
+  filter_map (fun w => let c := check_world_with true w in if c =? 0 then None else Some (wc_id w, c)) l.
 
 (* only the verdict (used where the returned path may legitimately differ) *)
 Definition check_world_verdict (w : wcase) : N :=
